@@ -15,11 +15,15 @@ import optrun
 from driver import hx
 
 PROP = "C15"
+CONCURRENT = "usage"   # extra phase: lib/mtindep.py
 LEVEL = "exploration"
 RULE = ("random declarations (0-4 groups, 0-12 options of all kinds, names 1-60 chars, descriptions of "
         "0-60 words with word lengths 1-100, defaults / metavars 1-50 chars, app names 1-75 chars) rendered "
         "to 5 kinds of target stream; distinct_nontrivial = distinct declarations with at least two options "
-        "whose text was checked structurally on all stream kinds")
+        "whose text was checked structurally on all stream kinds (rarely: up to 260 options, 40 groups, "
+        "300-1000 word descriptions, environment names up to 1000 characters); "
+        "a concurrent phase (lib/mtindep.py) repeats fixed calls from 2-16 threads on thread-private parsers "
+        "under ThreadSanitizer and compares with the serial results")
 
 NAMECH = "abcdefghijklmnopqrstuvwxyzABCXYZ0123456789_-"
 WORDCH = "abcdefghijklmnopqrstuvwxyzABCDEFGH0123456789.,;:!?()[]<>-_/'\"=+*"
@@ -40,6 +44,8 @@ def _name(rng, lo=1, hi=60):
 
 def _word(rng, braces=False):
     n = rng.choice([rng.randint(1, 8)] * 6 + [rng.randint(9, 39), rng.randint(38, 42), rng.randint(41, 100)])
+    if rng.random() < 0.004:
+        n = rng.choice([255, 256, 257, 1000, 4097])
     ch = WORDCH + "{}{}%$\\" if braces else WORDCH
     w = "".join(rng.choice(ch) for _ in range(n))
     if braces and rng.random() < 0.3:
@@ -48,7 +54,7 @@ def _word(rng, braces=False):
 
 
 def _decl(rng):
-    ng = rng.randint(0, 4)
+    ng = rng.randint(0, 4) if rng.random() < 0.97 else rng.choice([9, 17, 40])
     groups = []
     gnames = set()
     for g in range(ng):
@@ -59,7 +65,7 @@ def _decl(rng):
                 break
         gd = " ".join(_word(rng)[:12] for _ in range(rng.choice([0, 2, 4, 12, 30]))).encode() if rng.random() < 0.6 else b""
         groups.append((gn, gd[:rng.choice([60, 80, 81, 200])].strip()))
-    n = rng.choice([0, 1, 2, 3, 5, 8, 12])
+    n = rng.choice([0, 1, 2, 3, 5, 8, 12]) if rng.random() < 0.97 else rng.choice([17, 40, 100, 260])
     names = set()
     letters = rng.sample(LETTERS, min(n, len(LETTERS)))
     opts = []
@@ -73,9 +79,11 @@ def _decl(rng):
                 names.add(nm)
                 break
         kind = rng.choice("omt")
-        short = letters[i].encode() if rng.random() < 0.6 else None
-        desc = " ".join(_word(rng) for _ in range(rng.choice([0, 1, 3, 8, 20, 60]))).encode()
-        env = ("ENV_" + "".join(rng.choice("ABCDEFGHIJ_") for _ in range(rng.randint(1, 30)))).encode() \
+        short = letters[i].encode() if i < len(letters) and rng.random() < 0.6 else None
+        desc = " ".join(_word(rng) for _ in range(rng.choice([0, 1, 3, 8, 20, 60] if rng.random() < 0.98 else
+                                                             [300, 1000]))).encode()
+        env = ("ENV_" + "".join(rng.choice("ABCDEFGHIJ_") for _ in range(
+            rng.randint(1, 30) if rng.random() < 0.9 else rng.choice([59, 60, 61, 124, 250, 252, 253, 300, 1000])))).encode() \
             if rng.random() < 0.4 else None
         grp = rng.randrange(ng) if ng and rng.random() < 0.6 else None
         mv = _word(rng)[:50].encode() if rng.random() < 0.4 else None
